@@ -137,7 +137,11 @@ func (c *Cache) Fetch(ctx context.Context, mv module.Version) (module.SourceLoc,
 
 	entries, _ := os.ReadDir(parentDir)
 	for _, entry := range entries {
-		if strings.HasPrefix(entry.Name(), tmpPrefix) {
+		// The temporary directories were named with a random number after
+		// the prefix. Do not match anything else: "v0.0.1-a.tmp-x" is a valid
+		// version, and its directory must not be removed when v0.0.1-a is
+		// extracted.
+		if suffix, ok := strings.CutPrefix(entry.Name(), tmpPrefix); ok && isAllDigits(suffix) {
 			RemoveAll(filepath.Join(parentDir, entry.Name())) // best effort
 		}
 	}
@@ -189,6 +193,19 @@ func (c *Cache) Fetch(ctx context.Context, mv module.Version) (module.SourceLoc,
 	makeDirsReadOnly(dir)
 	verifhook.At("fetch.done")
 	return c.dirToLocation(dir), nil
+}
+
+// isAllDigits reports whether s is a non-empty string of decimal digits.
+func isAllDigits(s string) bool {
+	if s == "" {
+		return false
+	}
+	for i := 0; i < len(s); i++ {
+		if s[i] < '0' || s[i] > '9' {
+			return false
+		}
+	}
+	return true
 }
 
 // ModuleVersions implements [modload.Registry.ModuleVersions].
